@@ -117,6 +117,19 @@ func runC09(r *Run) {
 	by := t.Weighted(50, 25, 25) // none, Ping(ctx 1 s), Write(ctx 1 s)
 	byDelay := []time.Duration{0, 300 * time.Millisecond, 4500 * time.Millisecond}[t.Draw(3)]
 	zeroWindow := t.Pct(50)
+	// discardRace: Close's handshake is discarding the rest of a half-read frame
+	// whose last bytes have not arrived yet; a bystander's large Write is stuck in
+	// the transport (the peer does not read) and its context ends, so the timeout
+	// watcher closes the connection; the missing payload bytes arrive in the window
+	// between the connection being marked closed and its transport being closed.
+	// Close must still return.
+	discardRace := st == 2 && adv == 7 && call == 0
+	if discardRace {
+		by, zeroWindow = 2, false
+		if byDelay > time.Second {
+			byDelay = 300 * time.Millisecond
+		}
+	}
 
 	o := RawOpts{LibClient: role == 1}
 	if compress {
@@ -224,6 +237,18 @@ func runC09(r *Run) {
 		peer.Inject(append(pre, advBytes...))
 		advBytes = nil
 		endStream()
+	} else if discardRace {
+		peer.Inject(pre[:len(pre)-30])
+		rest := pre[len(pre)-30:]
+		r.ForceYield("close.flagged")
+		r.S.Go("resumer", func() {
+			r.S.ParkE("a.resumer", func() bool { return r.YieldSeenLocked("close.flagged") > 0 || t1 != never }, nil)
+			if t1 == never {
+				peer.Inject(rest)
+				r.S.Kick()
+				r.S.Count("probe.discarded-payload-completes-between-closed-flag-and-transport-close")
+			}
+		})
 	} else {
 		peer.Inject(pre) // adversary bytes follow once the reader holds its state
 	}
@@ -440,7 +465,11 @@ func runC09(r *Run) {
 			if by == 1 {
 				_ = c.Ping(ctx)
 			} else {
-				_ = c.Write(ctx, websocket.MessageText, []byte("bystander"))
+				msg := []byte("bystander")
+				if discardRace {
+					msg = Payload{Kind: 2, Len: 9000, Seed: 6}.Bytes() // more than the pipe takes
+				}
+				_ = c.Write(ctx, websocket.MessageText, msg)
 			}
 			byEnd = r.S.Now()
 		})
